@@ -1063,8 +1063,12 @@ def rule_not_found_protocol(model):
                             'lookup not found')
     # ---- writer: TemplateDict.getitem raises KeyError(key) only
     nwrite = 0
-    for qual in ('TemplateDict.getitem',):
-        g = model.func('_DocumentTemplate', qual)
+    g0 = model.func('_DocumentTemplate', 'TemplateDict.getitem')
+    for g in model.closure(g0):
+        if g.cls is not g0.cls:
+            continue
+        # the key: the second parameter of the lookup, or the parameter of
+        # a helper of the class that receives it
         key = g.params()[1] if len(g.params()) > 1 else None
         rebound = key is None or any(
             isinstance(x, ast.Name) and x.id == key and
@@ -1097,9 +1101,13 @@ def rule_not_found_protocol(model):
     # aborts the rendering of a condition that should count as false
     skipped = set()
     g = model.func('_DocumentTemplate', 'TemplateDict.getitem')
-    for x in own_nodes(g.node):
+    for x in [y for h_ in model.closure(g) if h_.cls is g.cls
+              for y in own_nodes(h_.node)]:
         if isinstance(x, ast.ExceptHandler) and x.type is not None and any(
-                isinstance(y, ast.Continue) for y in ast.walk(x)):
+                isinstance(y, (ast.Continue, ast.Pass))
+                for y in ast.walk(x)) and any(
+                isinstance(a_, (ast.For, ast.While))
+                for a_ in ancestors(x)):
             els = x.type.elts if isinstance(x.type, ast.Tuple) else [x.type]
             skipped |= {norm(e).split('.')[-1] for e in els}
     if not skipped:
